@@ -72,6 +72,16 @@ def case(arg):
     ops = L.gen_ops(random.Random(seed), X.base_kind(kn), nops)
     b = kn.split(":")[-1]
     res = {"kind": kn, "seed": seed, "nops": nops, "fail": None, "stats": {}}
+    if b == "integ":
+        # an IntegratorLearner only starts to refine after its first rule (33 abscissae) is complete: warm it up with a few large
+        # requests delivered out of order, leaving some abscissae outstanding
+        for _ in range(rng.choice([0, 1, 2, 3])):
+            r.ask(rng.choice([17, 33, 40]), True)
+            out = list(r.outstanding)
+            rng.shuffle(out)
+            for p in out[: max(1, len(out) - rng.choice([0, 0, 2, 7]))]:
+                r.tell(p)
+                r.told_points.append(p)
 
     def bump(k):
         res["stats"][k] = res["stats"].get(k, 0) + 1
